@@ -535,3 +535,72 @@ def check_C05(run, replay):
     rows = read_ndjson(out_path)
     run.notes["classes"] = class_counts(rows)
     absorb(run, rows, {i: dict(v, seed=run.seed) for (i, v) in recs}, mismatch_sig("solve"))
+
+
+def par_check(run, method_filter, n):
+    """shared by C06 (Full) and C07 (Sampled, External): model check Par.tla, record real passes, validate, compare"""
+    from vlib import tlc_trace
+    total = {"runs": 0, "nontrivial_cuts": 0, "passes": 0}
+    for meth in method_filter:
+        trace = run.path("par_%s.ndjson" % meth)
+        cmp_path = run.path("par_%s.cmp.ndjson" % meth)
+        args = ["record", "par", "--seed", run.seed, "--n", n, "--out", trace, "--cmp", cmp_path, "--method", meth]
+        if run.tier == "thorough":
+            args += ["--thorough", "1"]
+        info = json.loads(harness(args, timeout=20000).strip().splitlines()[-1])
+        for k in total:
+            total[k] += info[k]
+        # R: k threads versus one thread (the property observed directly)
+        for r in read_ndjson(cmp_path):
+            key = canon({k: r.get(k) for k in ("game", "method", "k", "T")})
+            if r["status"] == "ok":
+                run.evaluated(key, r.get("nontrivial", False))
+            else:
+                run.evaluated(key, True)
+                m = (r.get("mismatch") or [{}])[0]
+                run.violation("par:%s" % m.get("class", "?"), {"case": r, "context": {"seed": run.seed, "n": n}})
+        # V: every pass is a behaviour of Par.tla
+        validate_trace(run, "Trace_Par", trace,
+                       lambda rec: "par:pass:%s" % meth, {"seed": run.seed, "n": n, "method": meth}, timeout=20000)
+        run.traces += info["runs"]
+        with open(trace) as f:
+            for line in f:
+                if '"e":"pass"' in line and len(run.samples) < 2 and '"queue":[]' not in line:
+                    run.sample(json.loads(line))
+    run.notes["recorded"] = total
+
+
+# ------------------------------------------------------------------------------------------ C06
+LEVELS["C06"] = "model_checking"
+
+
+def check_C06(run, replay):
+    run.rule = ("model: MC_Par.tla - TLC builds every ordered tree with 2..4 children per internal node up to 11 nodes x "
+                "targets {3,6,9} x 3 consecutive passes with the workspace persisting as in the code and checks ExactlyOnce, "
+                "NoStaleTask, CacheIsCurrent, TasksDisjoint; traces: solve(Full, T=4 (1,2,3,4,10 thorough), k in "
+                "{2,3,4,8,16(,5,6,12)}, presets) on shape games, seeded games and U-zoo (kuhn, infoset shared by 16 nodes, "
+                "chain of depth 8) with generic payoffs: every pass (frontier, tasks, nodes entered, cache hits) validated "
+                "against Trace_Par.tla and the result compared with one thread at 1e-9; non-trivial = the frontier cut "
+                "produced tasks below the root; distinct by (game, method, k, T)")
+    run.assumptions = ["schedules of the real thread pool are sampled (repetitions, injected yields in thorough), the "
+                       "exhaustive argument over shapes lives in the model", "generic payoffs avoid exact ties (DESIGN 3.4)"]
+    res = tlc("MC_Par", cfg="MC_Par_Full_TRUE", timeout=3000)
+    run.add_tlc(res)
+    par_check(run, ["Full"], 24 if run.tier == "quick" else 200)
+
+
+# ------------------------------------------------------------------------------------------ C07
+LEVELS["C07"] = "model_checking"
+
+
+def check_C07(run, replay):
+    run.rule = ("model: MC_Par.tla instantiated for External - every tree up to 9 nodes x every owner assignment x targets "
+                "{3,6,9} x 4 passes (updating player alternates), draws a pure function of node and pass: ExactlyOnce on the "
+                "sampled tree, NoStaleTask, TasksDisjoint, NoLockConflict; traces: solve({Sampled,External}, ...) as C06 with "
+                "the draws pinned to a pure function of (site, infoset, pass): every pass validated against Trace_Par.tla "
+                "(at most one draw per infoset and pass and only at allowed sites, frontier, exactly-once visits of the "
+                "sampled tree, all lock attempts succeed) and compared with one thread at 1e-9")
+    run.assumptions = ["draws pinned through the hook (a pure function of site, infoset and pass)", "as C06"]
+    res = tlc("MC_Par", cfg="MC_Par_External_TRUE", timeout=3000)
+    run.add_tlc(res)
+    par_check(run, ["Sampled", "External"], 24 if run.tier == "quick" else 200)
